@@ -438,6 +438,7 @@ func ruleAllow405(c *Ctx) {
 	// the collected list: appends of Method of elements of P
 	allowed := join.Call.Args[0]
 	var srcSlices []ssa.Value
+	var methodAppends []*ssa.Call
 	okElems := true
 	seen := map[ssa.Value]bool{}
 	var walk func(v ssa.Value)
@@ -467,6 +468,7 @@ func ruleAllow405(c *Ctx) {
 											continue
 										}
 										k := env.resolveKey(b)
+										methodAppends = append(methodAppends, x)
 										if k.Slice != nil {
 											srcSlices = append(srcSlices, k.Slice)
 										} else {
@@ -583,6 +585,39 @@ func ruleAllow405(c *Ctx) {
 		inLoop = true
 	}
 	c.check(!inLoop, name, "Allow is built after all candidates were visited", p.ipos(upd), "the header is assembled outside the collecting loop", "the header is assembled inside the loop")
+	// every candidate contributes: inside the collecting loop a candidate's method is left out only because it is
+	// listed already. Any other test there (of the candidate's path, of its position in the ranking) makes the header
+	// depend on more than the set of path-matching candidates - on their order, which the two routers do not share.
+	facts := factsAt(sf)
+	for _, ap := range methodAppends {
+		why := ""
+		for f := range facts[ap.Block()] {
+			var at *ssa.BasicBlock
+			for _, b := range sf.Blocks {
+				if iff, ok := b.Instrs[len(b.Instrs)-1].(*ssa.If); ok && iff.Cond == f.Cond {
+					at = b
+				}
+			}
+			if at == nil || !cyc[at] {
+				continue
+			}
+			bo, isBo := f.Cond.(*ssa.BinOp)
+			if isBo && !isStringType(bo.X.Type()) {
+				if b, isBasic := bo.X.Type().Underlying().(*types.Basic); isBasic && b.Info()&types.IsInteger != 0 {
+					continue // loop control
+				}
+			}
+			if isBo && (bo.Op == token.EQL || bo.Op == token.NEQ) && (methodTaint[strip(bo.X)] || methodTaint[strip(bo.Y)]) {
+				continue // the duplicate test
+			}
+			if _, isNext := f.Cond.(*ssa.Extract); isNext {
+				continue // range over a map or string: loop control
+			}
+			why = "the condition at " + p.ipos(at.Instrs[len(at.Instrs)-1])
+		}
+		c.check(why == "", name, "every candidate's method is listed unless it is listed already", p.ipos(ap), "inside the collecting loop the addition is controlled by the loop and the duplicate test only",
+			"a candidate is left out of the Allow list by "+why+", which is neither the loop nor the duplicate test: the header then depends on more than the set of routes matching the URL (their order, their templates) and names fewer methods than are routable")
+	}
 }
 
 // ---------------------------------------------------------------------------
